@@ -81,6 +81,7 @@ type instr struct {
 	afterAbort int64
 	abortAt    int64 // 0 = never
 	deflt      bool  // behave like the nil reporter: return the error itself
+	firstRet   error // the first non-nil error this reporter returned
 	abortErr   *abortError
 	spin       func()
 }
@@ -116,6 +117,9 @@ func (r *instr) Error(e reporter.ErrorWithPos) error {
 		ret = r.abortErr
 	}
 	if ret != nil {
+		if !r.aborted {
+			r.firstRet = ret
+		}
 		r.aborted = true
 	}
 	r.calls = append(r.calls, []any{0, tagOf(e), r.code(ret)})
@@ -274,8 +278,41 @@ func opsCase(in map[string]any) map[string]any {
 	}
 }
 
-// e2e mode: {"files": {name: text}, "req": [names], "par": n, "abort": k (0 = never), "yield": seed,
-// "std": bool (wrap the resolver with the standard imports)}
+// failingResolver makes chosen paths fail without anything being reported: "error" = the resolver returns
+// an error of its own, "panic" = the resolver panics.
+type failingResolver struct {
+	inner protocompile.Resolver
+	fail  map[string]string
+}
+
+type resolverError struct{ path string }
+
+func (e *resolverError) Error() string { return "resolver refuses " + e.path }
+
+func (r *failingResolver) FindFileByPath(path string) (protocompile.SearchResult, error) {
+	switch r.fail[path] {
+	case "error":
+		return protocompile.SearchResult{}, &resolverError{path}
+	case "panic":
+		panic("resolver panics on " + path)
+	}
+	return r.inner.FindFileByPath(path)
+}
+
+// sameError: identity of two error values (== on the interface values; values of a type that cannot be
+// compared are never identical).
+func sameError(a, b error) (same bool) {
+	defer func() {
+		if recover() != nil {
+			same = false
+		}
+	}()
+	return a == b
+}
+
+// e2e mode: {"files": {name: text}, "req": [names], "par": n, "abort": k (0 = never, -1 = a reporter that
+// behaves like the default one: it returns the reported error itself), "yield": seed,
+// "std": bool (wrap the resolver with the standard imports), "rfail": {path: "error" | "panic"}}
 func e2eCase(in map[string]any) map[string]any {
 	files := map[string]string{}
 	if fm, ok := in["files"].(map[string]any); ok {
@@ -286,6 +323,10 @@ func e2eCase(in map[string]any) map[string]any {
 	abort := vhlib.Num(in, "abort")
 	seed := uint64(vhlib.Num(in, "yield"))
 	rep := &instr{abortErr: &abortError{abort}, abortAt: abort}
+	if abort < 0 {
+		rep.abortAt = 0
+		rep.deflt = true
+	}
 	if seed != 0 {
 		r := &rng{s: seed}
 		var mu sync.Mutex
@@ -306,6 +347,13 @@ func e2eCase(in map[string]any) map[string]any {
 		defer protocompile.VerifSetYieldHook(nil)
 	}
 	var res protocompile.Resolver = &protocompile.SourceResolver{Accessor: protocompile.SourceAccessorFromMap(files)}
+	if fm, ok := in["rfail"].(map[string]any); ok && len(fm) > 0 {
+		fr := &failingResolver{inner: res, fail: map[string]string{}}
+		for k, v := range fm {
+			fr.fail[k], _ = v.(string)
+		}
+		res = fr
+	}
 	if vhlib.Bool(in, "std") {
 		res = protocompile.WithStandardImports(res)
 	}
@@ -313,6 +361,10 @@ func e2eCase(in map[string]any) map[string]any {
 	type outcome struct {
 		n   int
 		err error
+		// reporter calls completed when Compile returned (a task nobody waits for any more may still report
+		// afterwards; such late calls are not part of this compilation's outcome and are counted separately)
+		errCalls, warnCalls, afterAbort int64
+		aborted                         bool
 	}
 	done := make(chan outcome, 1)
 	ctx, cancel := context.WithCancel(context.Background())
@@ -320,21 +372,27 @@ func e2eCase(in map[string]any) map[string]any {
 	go func() {
 		defer func() {
 			if p := recover(); p != nil {
-				done <- outcome{0, fmt.Errorf("ESCAPED-PANIC: %v", p)}
+				done <- outcome{n: 0, err: fmt.Errorf("ESCAPED-PANIC: %v", p)}
 			}
 		}()
 		fs, err := comp.Compile(ctx, vhlib.Strs(in, "req")...)
+		rep.mu.Lock()
+		snap := outcome{errCalls: rep.errCalls, warnCalls: rep.warnCalls, afterAbort: rep.afterAbort, aborted: rep.aborted}
+		rep.mu.Unlock()
 		n := 0
 		for _, f := range fs {
 			if f != nil {
 				n++
 			}
 		}
-		done <- outcome{n, err}
+		snap.n, snap.err = n, err
+		done <- snap
 	}()
 	out := map[string]any{}
+	var atReturn *outcome
 	select {
 	case o := <-done:
+		atReturn = &o
 		out["hang"] = false
 		out["ok"] = o.err == nil
 		out["nfiles"] = o.n
@@ -350,6 +408,17 @@ func e2eCase(in map[string]any) map[string]any {
 			out["err_text"] = o.err.Error()
 		}
 		out["is_abort"] = o.err != nil && errors.Is(o.err, error(rep.abortErr))
+		if rep.deflt {
+			// the reporter returned the reported error itself: Compile must fail with that very value
+			rep.mu.Lock()
+			fr := rep.firstRet
+			rep.mu.Unlock()
+			same := o.err != nil && fr != nil && sameError(o.err, fr)
+			out["is_abort"] = same
+			if same {
+				out["err"] = "abort"
+			}
+		}
 		out["is_invalid"] = o.err != nil && errors.Is(o.err, reporter.ErrInvalidSource)
 		if o.err != nil && strings.HasPrefix(o.err.Error(), "ESCAPED-PANIC") {
 			out["escaped_panic"] = true
@@ -364,6 +433,14 @@ func e2eCase(in map[string]any) map[string]any {
 	out["warn_calls"] = rep.warnCalls
 	out["after_abort"] = rep.afterAbort
 	out["aborted"] = rep.aborted
+	out["late_err_calls"] = 0
+	if atReturn != nil && !strings.HasPrefix(fmt.Sprint(atReturn.err), "ESCAPED-PANIC") {
+		out["late_err_calls"] = rep.errCalls - atReturn.errCalls
+		out["err_calls"] = atReturn.errCalls
+		out["warn_calls"] = atReturn.warnCalls
+		out["after_abort"] = rep.afterAbort // a call after the abort is a violation whenever it happens
+		out["aborted"] = atReturn.aborted
+	}
 	out["concurrent"] = rep.concurrent.Load()
 	msgs := rep.msgs
 	if msgs == nil {
